@@ -79,6 +79,12 @@ var properties = map[string][]harnessSpec{
 		{Name: "astconv.VerifC05Classifier", Quick: map[string]int{"C05.maxChords": 2, "C05.preemptions": 1}, Thorough: map[string]int{"C05.maxChords": 3, "C05.preemptions": 2}, Marks: []string{"end", "classified", "refused"}},
 		{Name: "play.VerifC05Transpose", Quick: map[string]int{"C05.maxDegree": 9}, Thorough: map[string]int{"C05.maxDegree": 15}, Marks: []string{"end", "rejected"}},
 	},
+	"C11": {
+		{Name: "input/ast.VerifC11Trivia", Quick: map[string]int{"C11.window": 3}, Thorough: map[string]int{"C11.window": 4}, Marks: end, MustTerminate: true},
+		{Name: "input/ast.VerifC11Underscore", Quick: map[string]int{"C11.symbol": 3}, Thorough: map[string]int{"C11.symbol": 4}, Marks: []string{"end", "not-a-plain-symbol"}, MustTerminate: true},
+		{Name: "astconv.VerifC11LeadingZeros", Quick: map[string]int{"C11.digits": 2}, Thorough: map[string]int{"C11.digits": 4}, Marks: []string{"end", "converted"}},
+		{Name: "astconv.VerifC11Accidental", Marks: []string{"end", "honoured", "not-an-accidental"}},
+	},
 	"C17": {
 		{Name: "desc.VerifC17Diatonic", Marks: end},
 	},
@@ -92,7 +98,7 @@ var properties = map[string][]harnessSpec{
 }
 
 func init() {
-	for _, id := range []string{"C08", "C10", "C11", "C12"} {
+	for _, id := range []string{"C08", "C10", "C12"} {
 		notApplicable[id] = "check not built yet in this session (work in progress; see DESIGN.md section 4 for the plan)"
 	}
 }
